@@ -3,8 +3,9 @@
 
    All theorems hold for an ARBITRARY Zobrist table z (no assumption on its entries at all; the
    table of the engine is only used by the correspondence streams).  [cur_hash b] is Board.Hash()
-   (the newest entry of the history), [calc_hash z b] is calculateHash, [run z b ops] plays a list
-   of moves and null moves, [RepW] is the shared invariant Rep (Spec/Rep.v) without its clause
+   (the newest entry of the history), [calc_hash z b] is calculateHash, [run l z b ops] plays a list
+   of moves and null moves with the reverse-token layout l (the boards do not depend on l; only
+   C04_walk, which also undoes, needs a sound layout), [RepW] is the shared invariant Rep (Spec/Rep.v) without its clause
    "every stored hash is below 2^64", which is meaningless for an unbounded table; with 64-bit
    entries ([zob_w64]) the full Rep is kept (C04_inv_Rep). *)
 From Coq Require Import NArith ZArith List Bool.
@@ -15,13 +16,13 @@ Open Scope N_scope.
 
 (* after any sequence of moves and null moves the three encodings still describe one placement and
    the incremental hash equals the hash from scratch *)
-Theorem C04_inv : forall z ops b0, Rep b0 -> cur_hash b0 = calc_hash z b0 -> applicable_all z b0 ops ->
-  let b := run z b0 ops in RepW b /\ cur_hash b = calc_hash z b.
+Theorem C04_inv : forall l z ops b0, Rep b0 -> cur_hash b0 = calc_hash z b0 -> applicable_all l z b0 ops ->
+  let b := run l z b0 ops in RepW b /\ cur_hash b = calc_hash z b.
 Proof. exact C04_inv_l. Qed.
 Print Assumptions C04_inv.
 
-Theorem C04_inv_Rep : forall z ops b0, zob_w64 z -> Rep b0 -> cur_hash b0 = calc_hash z b0 -> applicable_all z b0 ops ->
-  let b := run z b0 ops in Rep b /\ cur_hash b = calc_hash z b.
+Theorem C04_inv_Rep : forall l z ops b0, zob_w64 z -> Rep b0 -> cur_hash b0 = calc_hash z b0 -> applicable_all l z b0 ops ->
+  let b := run l z b0 ops in Rep b /\ cur_hash b = calc_hash z b.
 Proof. exact C04_inv_Rep_l. Qed.
 Print Assumptions C04_inv_Rep.
 
@@ -35,8 +36,8 @@ Proof. exact C04_one_placement_l. Qed.
 Print Assumptions C04_one_placement.
 
 (* the same along the search's depth-first walk (makes, null moves and undos interleaved) *)
-Theorem C04_walk : forall z evs b0, Rep b0 -> cur_hash b0 = calc_hash z b0 -> walk_ok z b0 [] evs ->
-  let b := fst (walk z b0 [] evs) in RepW b /\ cur_hash b = calc_hash z b.
+Theorem C04_walk : forall l z evs b0, layout_ok l = true -> Rep b0 -> cur_hash b0 = calc_hash z b0 -> walk_ok l z b0 [] evs ->
+  let b := fst (walk l z b0 [] evs) in RepW b /\ cur_hash b = calc_hash z b.
 Proof. exact C04_walk_l. Qed.
 Print Assumptions C04_walk.
 
@@ -49,9 +50,9 @@ Print Assumptions C04_reset.
 
 (* two move orders that reach the same key - placement, side to move, castling rights and the
    en-passant file as the hash sees it (none without a target) - reach the same hash *)
-Theorem C04_transposition : forall z ops1 ops2 b0, Rep b0 -> cur_hash b0 = calc_hash z b0 ->
-  applicable_all z b0 ops1 -> applicable_all z b0 ops2 ->
-  hkey (run z b0 ops1) = hkey (run z b0 ops2) -> cur_hash (run z b0 ops1) = cur_hash (run z b0 ops2).
+Theorem C04_transposition : forall l z ops1 ops2 b0, Rep b0 -> cur_hash b0 = calc_hash z b0 ->
+  applicable_all l z b0 ops1 -> applicable_all l z b0 ops2 ->
+  hkey (run l z b0 ops1) = hkey (run l z b0 ops2) -> cur_hash (run l z b0 ops1) = cur_hash (run l z b0 ops2).
 Proof. exact C04_transposition_l. Qed.
 Print Assumptions C04_transposition.
 
@@ -63,7 +64,7 @@ Print Assumptions C04_hash_of_key.
 (* non-vacuity *)
 Example C04_ex_start :
   Rep ex_start /\ cur_hash ex_start = calc_hash zob_real ex_start /\
-  applicable_all zob_real ex_start [OpMove e2e4; OpMove e7e5; OpNull; OpMove b8c6; OpMove g1f3].
+  applicable_all gen_layout zob_real ex_start [OpMove e2e4; OpMove e7e5; OpNull; OpMove b8c6; OpMove g1f3].
 Proof. vm_compute. repeat split; reflexivity. Qed.
 
 (* 1. Nf3 Nc6 2. e4 e5 and 1. e4 e5 2. Nf3 Nc6 reach the same key (a real transposition; the
@@ -71,9 +72,9 @@ Proof. vm_compute. repeat split; reflexivity. Qed.
 Example C04_ex_transposition :
   let o1 := [OpMove e2e4; OpMove e7e5; OpMove g1f3; OpMove b8c6] in
   let o2 := [OpMove g1f3; OpMove b8c6; OpMove e2e4; OpMove e7e5] in
-  applicable_all zob_real ex_start o1 /\ applicable_all zob_real ex_start o2 /\
-  hkey (run zob_real ex_start o1) = hkey (run zob_real ex_start o2) /\
-  hashes (run zob_real ex_start o1) <> hashes (run zob_real ex_start o2).
+  applicable_all gen_layout zob_real ex_start o1 /\ applicable_all gen_layout zob_real ex_start o2 /\
+  hkey (run gen_layout zob_real ex_start o1) = hkey (run gen_layout zob_real ex_start o2) /\
+  hashes (run gen_layout zob_real ex_start o1) <> hashes (run gen_layout zob_real ex_start o2).
 Proof. vm_compute. repeat split; try reflexivity. intros H. discriminate H. Qed.
 
 Example C04_ex_castling_ep :
